@@ -477,6 +477,43 @@ def e6_relink(F, R, M, pop_id, rule='E6'):
         loc = S.place_loc(n.id, n.d['place'])
         if loc[2] and loc[2][-1][0] == 'f' and loc[2][-1][2] == M.queue_adt and loc[2][-1][1] in fh_fields:
             fh_stores.append((n, loc[2][-1][1]))
+    # a relink must store the head that was saved *before* the free-list head was redirected; a load made after the
+    # redirection yields the released chain itself (self-loop: every previously free descriptor becomes unreachable)
+    def load_origins(nid, op, depth=0):
+        pl = op.get('copy') or op.get('move')
+        if pl is None or depth > 6:
+            return set()
+        if pl['p']:
+            return {nid}
+        out = set()
+        defs, _ = S.reaching_defs(nid, sg.nodes[nid].ctx, pl['l'])
+        for d in defs:
+            dn = sg.nodes[d]
+            if dn.kind == 'assign' and dn.d['rv']['rv'] in ('use', 'cast') and 'op' in dn.d['rv']:
+                o2 = dn.d['rv']['op']
+                p2 = o2.get('copy') or o2.get('move')
+                if p2 is not None and p2['p']:
+                    out.add(d)
+                else:
+                    out |= load_origins(d, o2, depth + 1)
+        return out
+    stale = []
+    for r_ in list(relinks):
+        rn = sg.nodes[r_]
+        if rn.d['rv']['rv'] != 'use':
+            continue
+        for o in load_origins(r_, rn.d['rv']['op']):
+            for fs, fld in fh_stores:
+                if o in sg.reach_fwd(list(fs.succ)) and fs.id not in sg.reach_fwd(list(sg.nodes[o].succ), avoid_edges=back_edges(sg)):
+                    stale.append((r_, o, fld))
+    for r_, o, fld in stale:
+        if r_ in relinks:
+            relinks.remove(r_)
+    R.check(not stale, rule, '%s:relink-uses-saved-head' % pop_id, site(sg, sg.nodes[stale[0][0]]) if stale else '',
+            'every relink stores the free-list head saved before it was redirected',
+            'the released descriptor is linked to `%s` as read *after* it was redirected to the released chain (load at %s): the descriptor points at itself, '
+            'the previous free list becomes unreachable and the same descriptor is handed out for two outstanding chains' % (
+                stale[0][2] if stale else '', site(sg, sg.nodes[stale[0][1]]) if stale else ''))
     # only the chain-walking loop (the one containing a relink store) is left to the shape rule above
     headers = set(h for h, body in loops if any(r_ in body for r_ in relinks))
     for n, fld in fh_stores:
